@@ -173,7 +173,7 @@ class ImmutableKnotVector(tuple):
         except TypeError:
             return False
         umin, umax = self.limits
-        if node < umin or umax < node:
+        if not (umin <= node <= umax):  # NaN is not valid
             return False
         return True
 
